@@ -263,8 +263,27 @@ static void fixed_case(unsigned k, CaseInfo& ci) {
   }
 }
 static void check(ByteSource& in, CaseInfo& ci) { if (in.chance(12)) { case_init_set(in, ci); return; } switch (in.pick({10, 3, 4, 4, 5})) { case 0: case_arith(in, ci); break; case 1: case_set(in, ci); break; case 2: case_exactfn(in, ci); break; case 3: case_set_str(in, ci); break; default: case_get_str(in, ci); break; } }
+// ---- exhaustive sweep: operands of up to two limbs from {0,1,2^63-1,2^63,2^64-2,2^64-1} x exponents {-1,0,1,3} x signs, destination 64 or 128 bits ----
+static void sweep_put(F& x, uint64_t idx, uint64_t prec_bits) {   // idx in [0, 36*4*2)
+  Int m = palette_int(idx % 36, 2); long ex = (long[]){-1, 0, 1, 3}[(idx / 36) % 4]; bool neg = idx >= 144; x.mk(prec_bits); size_t n = m.m.size();
+  for (size_t i = 0; i < n; i++) x.f->_mp_d[i] = m.m[i]; x.f->_mp_size = neg ? -(int)n : (int)n; x.f->_mp_exp = n ? ex : 0; for (size_t i = n; i < (size_t)x.f->_mp_prec + 1; i++) x.f->_mp_d[i] = 0xdeadbeefdeadbeefull; x.v = read_mpf(x.f);
+}
+static uint64_t sweep_count() { return 288ull * 288ull * 2ull; }
+static void sweep_item(uint64_t i, CaseInfo& ci) {
+  uint64_t ia = i % 288, ib = (i / 288) % 288; uint64_t p = (i / (288 * 288)) ? 128 : 64; F a, b, r; sweep_put(a, ia, 128); sweep_put(b, ib, 128); r.mk(p); uint64_t pp = mpf_get_prec(r.f);
+  ci.d("a=%s b=%s dest %llu bits", dshow(a.v).c_str(), dshow(b.v).c_str(), (unsigned long long)p); bool fit = fitsp(a.v, pp) && fitsp(b.v, pp);
+  { Dy e = dadd(a.v, b.v); mpf_add(r.f, a.f, b.f); judge("mpf_add", r.f, Ex{e.m, Int(1), e.e}, pp, fit, ci); }
+  { Dy e = dadd(a.v, dneg(b.v)); mpf_sub(r.f, a.f, b.f); judge("mpf_sub", r.f, Ex{e.m, Int(1), e.e}, pp, fit, ci); }
+  { Dy e = dmul(a.v, b.v); mpf_mul(r.f, a.f, b.f); judge("mpf_mul", r.f, Ex{e.m, Int(1), e.e}, pp, fit, ci); }
+  if (!b.v.m.is_zero()) { Int n = a.v.m, d = b.v.m; if (d.neg) { n = -n; d = -d; } mpf_div(r.f, a.f, b.f); judge("mpf_div", r.f, Ex{n, d, a.v.e - b.v.e}, pp, fit, ci); }
+  if (ib < 6) { uint64_t u = PAL6[ib]; Dy U{Int::from_u64(u), 0}; bool f2 = fitsp(a.v, pp) && fitsp(U, pp);
+    { Dy e = dadd(a.v, U); mpf_add_ui(r.f, a.f, u); judge("mpf_add_ui", r.f, Ex{e.m, Int(1), e.e}, pp, f2, ci); } { Dy e = dadd(a.v, dneg(U)); mpf_sub_ui(r.f, a.f, u); judge("mpf_sub_ui", r.f, Ex{e.m, Int(1), e.e}, pp, f2, ci); }
+    { Dy e = dadd(U, dneg(a.v)); mpf_ui_sub(r.f, u, a.f); judge("mpf_ui_sub", r.f, Ex{e.m, Int(1), e.e}, pp, f2, ci); } { Dy e = dmul(a.v, U); mpf_mul_ui(r.f, a.f, u); judge("mpf_mul_ui", r.f, Ex{e.m, Int(1), e.e}, pp, f2, ci); }
+    if (u) { mpf_div_ui(r.f, a.f, u); judge("mpf_div_ui", r.f, Ex{a.v.m, Int::from_u64(u), a.v.e}, pp, f2, ci); } if (!a.v.m.is_zero()) { Int n = Int::from_u64(u), d = a.v.m; if (d.neg) { n = -n; d = -d; } mpf_ui_div(r.f, u, a.f); judge("mpf_ui_div", r.f, Ex{n, d, -a.v.e}, pp, f2, ci); } }
+}
 namespace eng {
 PropDef g_prop = {"C13",
   "Cases: one call of mpf_add/sub/mul/div/sqrt and their _ui forms, mpf_set_q/set_z/set_d, mpf_set_str, the default-precision family (mpf_set_default_prec then mpf_init_set/_ui/_si/_d/_str, mpf_inits: precision >= default, same value rules), mpf_floor/ceil/trunc/neg/abs/mul_2exp/div_2exp, mpf_get_str. Destination precision 1..2000 bits chosen independently of the operand precisions (shorter and longer), reached directly, through mpf_set_prec after another value, or through mpf_set_prec_raw (restored afterwards); the destination may alias an operand; operands are built limb by limb (up to prec+1 limbs, low zero limbs, all ones, single bit), with exponent relations no overlap / partial / full / far apart and nearly cancelling pairs for add/sub. Oracle: an mpf value is the exact dyadic rational mantissa*2^(64*(exp-size)) in refint; with p = mpf_get_prec(rop): |result-exact| < 2^(2-p)*|exact| (sqrt by squaring both bounds), result == exact whenever the operands and the exact value each fit in p bits, exact functions compared exactly, mpf_get_str: at most n_digits digits, no trailing zeros, right alphabet, value within one unit of the last requested digit (n_digits never exceeds what the precision carries); the format rules (|size| <= prec+1, top limb non-zero, zero has exponent 0) after every call. Non-trivial: non-zero first operand. Distinct = hash of all decoded choices.",
-  check, nullptr, {"exact_clause", "bound_clause", "result_truncated", "near_cancellation", "ui_operand_nearly_cancels", "x+1|000_minus_x|fff", "exponents_far_apart", "low_zero_limbs", "operand_longer_than_prec_raw", "dest:set_prec", "dest:set_prec_raw", "dest_aliases_operand", "get_str:fewer_digits_than_requested"}, fixed_case};
+  check, nullptr, {"exact_clause", "bound_clause", "result_truncated", "near_cancellation", "ui_operand_nearly_cancels", "x+1|000_minus_x|fff", "exponents_far_apart", "low_zero_limbs", "operand_longer_than_prec_raw", "dest:set_prec", "dest:set_prec_raw", "dest_aliases_operand", "get_str:fewer_digits_than_requested"}, fixed_case, sweep_count, sweep_item,
+  "every pair of mpf operands with a mantissa of up to two limbs from {0,1,2^63-1,2^63,2^64-2,2^64-1}, exponent in {-1,0,1,3} limbs and either sign (288 x 288), into a 64-bit and a 128-bit destination: mpf_add, sub, mul, div; with the six palette values as unsigned long: add_ui, sub_ui, ui_sub, mul_ui, div_ui, ui_div (2^(2-p) bound, exactness clause, format rules)"};
 }
